@@ -76,7 +76,7 @@ def gen_case(st, tier):
     if rp.random() < 0.3:
         case["rps"].append({"name": "rg", "filterable": True, "raw": False, "h": rp.getrandbits(40)})
     rpnames = [r["name"] for r in case["rps"]]
-    defined = {"rp": list(rpnames), "impl": [], "parser": [], "combiner": [], "chain": []}
+    defined = {"rp": list(rpnames), "impl": [], "parser": [], "combiner": [], "chain": [], "inner": []}
     ncls = 0
     nops = rp.randint(4, 40 if tier == "thorough" else 28)
     ops = case["ops"]
@@ -84,13 +84,19 @@ def gen_case(st, tier):
     def def_class():
         nm = "D%d" % len([o for o in ops if o["op"] == "defclass"])
         impls = [r for r in rpnames if rp.random() < 0.75] or ["rf"]
-        ops.append({"op": "defclass", "name": nm, "impls": impls, "h": [rp.getrandbits(40) for _ in impls]})
+        # some implementations are built on inner datasources (the first_of([...]) shape of DefaultSpecs.lsof etc.):
+        # the inner one is what feeds grep / the allow-list, two levels below the registry point
+        inner = dict((r, rp.choice([0, 0, 1, 2])) for r in impls)
+        ops.append({"op": "defclass", "name": nm, "impls": impls, "h": [rp.getrandbits(40) for _ in impls], "inner": inner,
+                    "ih": rp.getrandbits(40)})
         defined["impl"].extend("%s.%s" % (nm, r) for r in impls)
+        defined["inner"].extend("%s.%s.%d" % (nm, r, k) for r in impls for k in range(inner[r]))
 
     def_class()
     for _ in range(nops):
         r = rp.random()
-        ds_targets = ["rp:" + x for x in defined["rp"]] + ["impl:" + x for x in defined["impl"]] + ["chain:" + x for x in defined["chain"]]
+        ds_targets = (["rp:" + x for x in defined["rp"]] + ["impl:" + x for x in defined["impl"]] + ["chain:" + x for x in defined["chain"]] +
+                      ["inner:" + x for x in defined["inner"]])
         if r < 0.07 and len([o for o in ops if o["op"] == "defclass"]) < 3:
             def_class()
         elif r < 0.17:
@@ -202,11 +208,17 @@ class FilterWorld(object):
             cb = {"__module__": w1.MODNAME}
             for rn, h in zip(op["impls"], op["h"]):
                 key = "impl:%s.%s" % (op["name"], rn)
-                ds = self._ds(key, h, [HostContext])
+                inner_keys = []
+                for k in range((op.get("inner") or {}).get(rn, 0)):
+                    ik = "inner:%s.%s.%d" % (op["name"], rn, k)
+                    self.objs[ik] = self._ds(ik, (op.get("ih", 0) + 7919 * (k + 1) + hash_str(rn)) % (1 << 40), [HostContext])
+                    self.meta[ik] = {"kind": "inner", "deps": [], "filterable": False, "attr": None, "raw": False, "ds": True, "of": key}
+                    inner_keys.append(ik)
+                ds = self._ds(key, h, [[self.objs[ik] for ik in inner_keys]] if inner_keys else [HostContext])
                 cb[rn] = ds
                 self.objs[key] = ds
                 r = [x for x in self.case["rps"] if x["name"] == rn][0]
-                self.meta[key] = {"kind": "impl", "deps": [], "filterable": r["filterable"], "attr": r["filterable"], "raw": r["raw"], "ds": True}
+                self.meta[key] = {"kind": "impl", "deps": list(inner_keys), "filterable": r["filterable"], "attr": r["filterable"], "raw": r["raw"], "ds": True}
                 self.meta["rp:" + rn]["deps"].append(key)
             type(op["name"], (self.base,), cb)
         elif k == "defparser":
@@ -301,6 +313,10 @@ class FilterWorld(object):
         return exp
 
 
+def hash_str(x):
+    return sum((i + 1) * ord(ch) for i, ch in enumerate(x))
+
+
 def real_patterns(p):
     if isinstance(p, dict) and "set" in p:
         return set(p["set"])
@@ -377,6 +393,8 @@ def assertable(world, key):
         return m["filterable"]
     if m["kind"] == "chain":
         return world.meta[m["deps"][0]].get("filterable", False)
+    if m["kind"] == "inner":
+        return world.meta[m["of"]].get("filterable", False)
     return False
 
 
@@ -564,6 +582,8 @@ def shrink(case):
                     if "rp:" + rn not in have:
                         return False
                     have.add("impl:%s.%s" % (o["name"], rn))
+                    for x in range((o.get("inner") or {}).get(rn, 0)):
+                        have.add("inner:%s.%s.%d" % (o["name"], rn, x))
             elif k == "defparser":
                 if o["on"] not in have:
                     return False
@@ -625,6 +645,13 @@ def shrink(case):
                 del c["ops"][k]["h"][x]
                 if valid(c):
                     yield c
+        if o["op"] == "defclass" and any((o.get("inner") or {}).values()):
+            for rn, nin in sorted(o["inner"].items()):
+                if nin:
+                    c = _copy(case)
+                    c["ops"][k]["inner"][rn] = nin - 1
+                    if valid(c):
+                        yield c
         if o["op"] == "look" and o["with_matches"]:
             c = _copy(case)
             c["ops"][k]["with_matches"] = False
